@@ -1,5 +1,6 @@
 """C16 - operator-graph rewrites (structural part)."""
 import ast
+from ..defuse import before as _before
 import copy
 
 from ..loader import norm, AnalysisError
@@ -453,7 +454,7 @@ def _dict_accumulation(fi, loops):
         return None
     D = fin[0].value.args[0].func.value.id
     loop = loops[0]
-    init = [s for s in fi.node.body if isinstance(s, ast.Assign) and norm(s.targets[0]) == D and s.lineno < loop.lineno]
+    init = [s for s in fi.node.body if isinstance(s, ast.Assign) and norm(s.targets[0]) == D and _before(fi.node, s, loop)]
     if len(init) != 1 or norm(init[0].value) not in ('{}', 'dict()', 'dict(self.opics)'):
         return None
     if not (isinstance(loop.target, ast.Tuple) and len(loop.target.elts) == 2 and all(isinstance(x, ast.Name) for x in loop.target.elts)):
